@@ -10,6 +10,8 @@ arbitrary schedules (a schedule is a list of actions; an action that is not enab
   `closed`, the `quit` channel, the socket; the accept loop of `listen`; `Stop` calls, serialised
   by `listeningLock`, which wait for the accept loop on `quitListener`.
 * `Ll`/`llStep` — the in-memory listener (`network/local.go:417-445`).
+* `Ws`/`wsStep` — the client side: `WebSocket.start` / `WebSocket.stop` and the token on `startstop`
+  (`websocket.go:171-223`).
 -/
 namespace C10
 
@@ -94,6 +96,85 @@ def ClPc.rank : ClPc → Nat
 
 /-- steps `Start` and the `Close` calls still have to take -/
 def hsMeasure (s : Hs) : Nat := s.start.rank + (s.closers.map ClPc.rank).sum
+
+/-! ### the client side: `WebSocket.start` / `WebSocket.stop` (`websocket.go:171-223`)
+`start` (run in a goroutine of its own by `Server.Start`): under the websocket's mutex `started = true`
+and the HTTP server's goroutine is launched (it owns the client-side port); after the unlock `start`
+blocks in `w.startstop <- true` — it returns when a `stop` takes that token.  `stop`: under the mutex,
+nothing unless `started`; else `server.Shutdown` (the port is given back; no client connection is
+open, so it returns at once), `<-w.startstop`, `started = false`.  Unboundedly many `stop` calls. -/
+
+inductive WsStartPc
+  | none       -- `start` has not run
+  | locked     -- inside the mutex: `started = true`, the server goroutine launched
+  | sending    -- mutex released, blocked in `w.startstop <- true`
+  | returned
+  deriving DecidableEq, Repr
+
+inductive WsStopPc
+  | want       -- before `w.Lock()`
+  | shutting   -- holds the mutex, saw `started`, `Shutdown` done, blocked in `<-w.startstop`
+  | returned
+  deriving DecidableEq, Repr
+
+inductive WsHolder
+  | start
+  | stop (j : Nat)
+  deriving DecidableEq, Repr
+
+structure Ws where
+  lock : Option WsHolder := none
+  started : Bool := false
+  /-- the HTTP server's goroutine holds the client-side port -/
+  serving : Bool := false
+  start : WsStartPc := .none
+  stops : List WsStopPc := []
+  /-- ghost: `Shutdown` calls made -/
+  shutdowns : Nat := 0
+  deriving DecidableEq, Repr
+
+inductive WsAct
+  | startLock          -- `w.Lock(); w.started = true; go serve; <-started`
+  | startUnlock        -- `w.Unlock()`, on to `w.startstop <- true`
+  | stopCall           -- a new `WebSocket.stop()` call
+  | stopLock (j : Nat) -- `w.Lock(); if !w.started { return }; w.server.Shutdown(ctx)`
+  | handshake (j : Nat) -- `<-w.startstop` of call j meets `start`'s send; `w.started = false`; unlock
+  deriving DecidableEq, Repr
+
+def wsStep (s : Ws) : WsAct → Option Ws
+  | .startLock =>
+    if s.start = .none ∧ s.lock = none then
+      some { s with start := .locked, lock := some .start, started := true, serving := true }
+    else none
+  | .startUnlock =>
+    if s.start = .locked then some { s with start := .sending, lock := none } else none
+  | .stopCall => some { s with stops := s.stops ++ [.want] }
+  | .stopLock j =>
+    if s.stops[j]? = some .want ∧ s.lock = none then
+      if s.started then
+        some { s with stops := s.stops.set j .shutting, lock := some (.stop j), serving := false,
+                      shutdowns := s.shutdowns + 1 }
+      else some { s with stops := s.stops.set j .returned }
+    else none
+  | .handshake j =>
+    if s.stops[j]? = some .shutting ∧ s.start = .sending then
+      some { s with stops := s.stops.set j .returned, start := .returned, started := false, lock := none }
+    else none
+
+def wsRun (s : Ws) : List WsAct → Ws
+  | [] => s
+  | a :: as => match wsStep s a with
+    | some s' => wsRun s' as
+    | none => wsRun s as
+
+def WsStartPc.rank : WsStartPc → Nat
+  | .none => 3 | .locked => 2 | .sending => 1 | .returned => 0
+
+def WsStopPc.rank : WsStopPc → Nat
+  | .want => 2 | .shutting => 1 | .returned => 0
+
+/-- steps the `stop` calls (and a `start` that has begun) still have to take -/
+def wsMeasure (s : Ws) : Nat := s.start.rank + (s.stops.map WsStopPc.rank).sum
 
 /-! ### the TCP / TLS listener -/
 
